@@ -97,10 +97,14 @@ func (s *Server) Start() {
 	p.Start()
 	// Start goroutine to cleanup resources on protocol shutdown
 	doneChan := p.DoneChan()
+	// We create our own vars for these channels since they get replaced on restart.
+	// They must be read here, not inside the goroutine: a goroutine that is scheduled
+	// late would otherwise pick up (and later close) the channels of the next instance
+	// created by handleDone, which panics with "close of closed channel" or
+	// "send on closed channel".
+	requestTxIdsResultChan := s.requestTxIdsResultChan
+	requestTxsResultChan := s.requestTxsResultChan
 	go func() {
-		// We create our own vars for these channels since they get replaced on restart
-		requestTxIdsResultChan := s.requestTxIdsResultChan
-		requestTxsResultChan := s.requestTxsResultChan
 		<-doneChan
 		close(requestTxIdsResultChan)
 		close(requestTxsResultChan)
